@@ -43,8 +43,26 @@ def scenario(rng, i):
         elif r < 0.95:
             steps.append({"op": "xsdcheck"})
         else:
-            steps.append({"op": "flatten"})
+            steps.append({"op": "flatten", **({"rel_dest": True} if rng.random() < 0.5 else {})})
             steps.append({"op": "verifypl"})
+    return {"tree": tree, "steps": steps}
+
+
+def scenario_nested_sf(rng, i):
+    """three levels of nested histories and create -sf on a file in a sibling history: only the histories on the path
+    to the named file may be touched"""
+    c = lambda: gen.gen_content(rng) or "0a"  # noqa
+    tree = {"A": {"d": {"A1": {"d": {"f.bin": {"f": c()}, "g.bin": {"f": c()}}}, "a.txt": {"f": c()}}},
+            "B": {"d": {"b.txt": {"f": c()}, "B1": {"d": {"x": {"f": c()}}}}}, "r.txt": {"f": c()}}
+    steps = [{"op": "create", "root": d, "fmts": gen.gen_fmts(rng)} for d in ("A/A1", "A", "B")]
+    if rng.random() < 0.5:
+        steps.insert(2, {"op": "create", "root": "B/B1", "fmts": gen.gen_fmts(rng)})
+    steps.append({"op": "create", "fmts": gen.gen_fmts(rng)})
+    targets = ["B/b.txt", "r.txt", "A/a.txt", "A/A1/f.bin", "B/B1/x"]
+    for t in rng.sample(targets, 3):
+        steps.append({"op": "create", "fmts": gen.gen_fmts(rng), "sf": [t]})
+        if rng.random() < 0.4:
+            steps.append({"op": rng.choice(["verify", "diff", "info"])})
     return {"tree": tree, "steps": steps}
 
 
@@ -62,7 +80,7 @@ def check(rep, tier, seed):
     try:
         for i in range(n):
             rng = core.rng_for(seed, f"C14/{i}")
-            scn = scenario(rng, i)
+            scn = scenario_nested_sf(rng, i) if i % 5 == 4 else scenario(rng, i)
             io, root = world.run_impl(scn, scratch, snap=True)
             mo = world.run_model(scn, model)
             for st, o in zip(scn["steps"], io):
